@@ -6,6 +6,7 @@ package main
 
 import (
 	"go/constant"
+	"go/token"
 	"go/types"
 	"io/fs"
 	"math"
@@ -406,6 +407,27 @@ func (ip *Interp) model2(fn *ssa.Function, name string, args []AV) (AV, bool) {
 		if v, ok := ip.Atomics[k]; ok {
 			held = int(avInt(v))
 		}
+		if ip.Sched != nil && ip.Sched.cur != nil && (fn.Name() == "Lock" || fn.Name() == "RLock") {
+			// another task may hold it: wait for it (a task waiting for itself never gets on and shows as parked for good)
+			owner := "mutexowner:" + atomKey(p)
+			me := kInt(int64(ip.Sched.cur.ID))
+			for {
+				held = 0
+				if v, ok := ip.Atomics[k]; ok {
+					held = int(avInt(v))
+				}
+				if held == 0 || (fn.Name() == "RLock" && held > 0) {
+					break
+				}
+				if o, ok := ip.Atomics[owner]; ok && avEqual(o, me) {
+					rtPanic("self-deadlock: %s on a mutex this goroutine already holds (the call blocks forever)", fn.Name())
+				}
+				ip.Sched.park("mutex held by another goroutine")
+			}
+			if fn.Name() == "Lock" {
+				ip.Atomics[owner] = me
+			}
+		}
 		switch fn.Name() {
 		case "Lock":
 			if held != 0 {
@@ -437,6 +459,103 @@ func (ip *Interp) model2(fn *ssa.Function, name string, args []AV) (AV, bool) {
 			}
 			ip.Atomics[k] = kInt(-1)
 			return kBool(true), true
+		}
+	}
+	// ---- function-style atomics on an addressable integer cell (single thread of control at a time)
+	if strings.HasPrefix(name, "sync/atomic.") && len(args) > 0 {
+		if p, ok := args[0].(*Ptr); ok {
+			op := strings.TrimPrefix(name, "sync/atomic.")
+			for _, sfx := range []string{"Int64", "Int32", "Uint64", "Uint32", "Uintptr"} {
+				if !strings.HasSuffix(op, sfx) {
+					continue
+				}
+				t := fn.Signature.Params().At(0).Type().(*types.Pointer).Elem()
+				cur, _ := p.load().(constant.Value)
+				if cur == nil {
+					cur = constant.MakeInt64(0)
+				}
+				fit := func(k constant.Value) AV {
+					v, ok := convertConst(k, t)
+					if !ok {
+						ood("atomic arithmetic")
+					}
+					return v
+				}
+				switch strings.TrimSuffix(op, sfx) {
+				case "Load":
+					return cur, true
+				case "Store":
+					p.store(args[1])
+					return TupleV{}, true
+				case "Add":
+					nv := fit(constant.BinaryOp(cur, token.ADD, args[1].(constant.Value)))
+					p.store(nv)
+					return nv, true
+				case "Swap":
+					p.store(args[1])
+					return cur, true
+				case "CompareAndSwap":
+					if constant.Compare(cur, token.EQL, args[1].(constant.Value)) {
+						p.store(args[2])
+						return kBool(true), true
+					}
+					return kBool(false), true
+				}
+			}
+		}
+	}
+	if strings.HasPrefix(name, "(*sync.WaitGroup).") {
+		p, ok := args[0].(*Ptr)
+		if !ok {
+			ood("WaitGroup receiver")
+		}
+		if ip.Atomics == nil {
+			ip.Atomics = map[string]AV{}
+		}
+		k := "wg:" + atomKey(p)
+		cnt := int64(0)
+		if v, ok := ip.Atomics[k]; ok {
+			cnt = avInt(v)
+		}
+		switch fn.Name() {
+		case "Add":
+			cnt += avInt(args[1])
+			if cnt < 0 {
+				rtPanic("sync: negative WaitGroup counter")
+			}
+			ip.Atomics[k] = kInt(cnt)
+			return TupleV{}, true
+		case "Done":
+			if cnt-1 < 0 {
+				rtPanic("sync: negative WaitGroup counter")
+			}
+			ip.Atomics[k] = kInt(cnt - 1)
+			return TupleV{}, true
+		case "Go":
+			if ip.Sched == nil {
+				ood("(*sync.WaitGroup).Go without a scheduler")
+			}
+			ip.Atomics[k] = kInt(cnt + 1)
+			fv := args[1]
+			ip.Sched.Spawn("wg.Go", func() {
+				defer func() {
+					c2 := avInt(ip.Atomics[k])
+					ip.Atomics[k] = kInt(c2 - 1)
+				}()
+				ip.apply(nil, fv, nil)
+			})
+			return TupleV{}, true
+		case "Wait":
+			if ip.Sched == nil {
+				if cnt == 0 {
+					return TupleV{}, true
+				}
+				ood("(*sync.WaitGroup).Wait without a scheduler")
+			}
+			for avInt(ip.Atomics[k]) != 0 {
+				ip.Sched.park("WaitGroup.Wait")
+			}
+			return TupleV{}, true
 		}
 	}
 	if name == "(*sync.Once).Do" {
